@@ -135,7 +135,7 @@ func (f *FnEnc) execInstr(ins ssa.Instruction) bool {
 		f.safety("nil", tNot(tEq(x, tInt(0))), v.Pos(), "")
 		S := derefType(v.X.Type())
 		ft := structOf(S).Field(v.Field).Type()
-		if e.isStructT(ft) {
+		if e.subObj(ft) {
 			f.vals[v] = e.subRef(S, v.Field, x)
 		} else {
 			f.vals[v] = FieldPtr{x, S, v.Field}
